@@ -14,6 +14,11 @@
 // at the base64 and at the ciphertext level, re-encryption under other keys, truncations, extensions, re-signed /
 // re-issued / expired / jti-swapped JWTs, alg none, HMAC with the public key, edited refresh tokens, forged ID tokens
 // as id_token_hint, garbage). One-directional: never honoured, never able to kill a victim, garbage revocation = 200.
+//
+// Part 3 (dyn.go): one provider under a host-dependent issuer (IssuerFromHost with and without path,
+// IssuerFromForwardedOrHost) serving two hosts: tokens minted through real flows under host A and host B are presented
+// under both hosts in both orders. JWT access tokens and ID tokens are the provider's tokens only for the issuer of
+// the request they are presented to; opaque and refresh tokens are grey across hosts.
 package main
 
 import (
@@ -21,7 +26,8 @@ import (
 	"verif/internal/opdrv"
 )
 
-// replay files carry one case number: histories use their index, forged-token cases forgedBase + index.
+// replay files carry one case number: histories use their index, forged-token cases forgedBase + index,
+// dynamic-issuer cases dynBase + index.
 const forgedBase = 1_000_000
 
 func main() {
@@ -30,7 +36,8 @@ func main() {
 		"(userinfo, introspection, revocation, end_session, token exchange) is an evaluation; distinct = distinct vectors (router, endpoint, presentation " +
 		"variant / caller kind / hint kind / requested type, token kind, issued via code|exchange, model state of the token(s)). part 2: per case a fresh " +
 		"world with live victims and the complete operator list (all single-bit flips, all truncations, ...); every request carrying a forged string is an " +
-		"evaluation; distinct = (router, operator)")
+		"evaluation; distinct = (router, operator). part 3: per case one provider with a host-dependent issuer strategy and two hosts; every presentation " +
+		"of a token at an endpoint under a host is an evaluation; distinct = (router, strategy, endpoint, token kind, own/other host, live/dead)")
 	run.Assume(
 		"vstore policy (DESIGN section 3): token look-ups are by id and compare the subject handed in - a bit flip in the subject half of an opaque token is refused by that comparison; introspection checks the audience before filling anything; RevokeToken refuses a foreign client with invalid_client",
 		"vstore policy: revoking a refresh token also kills the access token issued with it (RFC 7009 2.1 SHOULD); TerminateSession kills every access and refresh token of (subject, client), tokens issued afterwards start a new session",
@@ -39,6 +46,7 @@ func main() {
 		"a string that decodes to the very same ciphertext / JWS parts as a live token (non-canonical base64 tail bits, CR/LF that Go's decoder skips) is the same token in another spelling: counted, not judged",
 		"token ids are assumed unguessable: vstore's ids are sequential, so a flipped id digit of an opaque token can name another live token of the same subject - such a string is that token's genuine content under the provider's key; counted (forged_grey_class), not judged, and the forged-token worlds mint nothing that could be hit",
 		"refresh and ID tokens presented at userinfo / introspection are counted, not judged (the endpoints are defined for access tokens)",
+		"host-dependent issuers: a JWT access token / ID token counts as issued by the provider only for the issuer of the request it is presented to (iss = request issuer); opaque access tokens and refresh tokens carry no issuer, so honouring them under the provider's other host is counted, not judged; the owner's revocation under the other host is followed through the storage monitor (adaptive), not judged",
 		"token exchange is judged one-directionally (a refused live token is counted only); revocation of an already dead token by anybody is counted only",
 	)
 	var mandatory []string
@@ -64,13 +72,25 @@ func main() {
 		"jwt-truncated", "refresh-edited", "idtoken-foreign-key", "idtoken-foreign-issuer", "idtoken-expired", "garbage"} {
 		mandatory = append(mandatory, "forged-op:"+o)
 	}
+	for _, rn := range opdrv.RouterNames {
+		for _, ep := range dynEndpoints {
+			mandatory = append(mandatory, "dynamic-issuer:own-host-honoured:"+ep+":"+rn, "dynamic-issuer:other-host-refused:"+ep+":"+rn)
+		}
+		for _, st := range dynStrategies {
+			mandatory = append(mandatory, "dynamic-issuer:strategy:"+st+":"+rn)
+		}
+		mandatory = append(mandatory, "dynamic-issuer:first-host:A:"+rn, "dynamic-issuer:first-host:B:"+rn)
+	}
 	run.Mandatory(mandatory...)
 
 	nHist := run.N(2000, 60000)
 	nForged := run.N(32, 960)
+	nDyn := run.N(72, 1440)
 	if rc := run.ReplayCase(); rc >= 0 {
 		// a replay runs one case only: the mandatory scenarios of a whole run cannot all be seen
-		if rc >= forgedBase {
+		if rc >= dynBase {
+			runDynamic(run, int(rc-dynBase))
+		} else if rc >= forgedBase {
 			runForged(run, int(rc-forgedBase))
 		} else {
 			runHistory(run, int(rc), 0)
@@ -84,6 +104,9 @@ func main() {
 	ev.Parallel(nHist, 0, func(_ int, i int) {
 		runHistory(run, i, 0)
 		runHistory(run, i, 1)
+	})
+	ev.Parallel(nDyn, 0, func(_ int, k int) {
+		runDynamic(run, k)
 	})
 	ev.Parallel(nForged, 0, func(_ int, j int) {
 		runForged(run, j)
